@@ -94,3 +94,29 @@ Definition run_build3 (t : Z) (a : list sexp) : sexp :=
       end
   | _, _ => SL [SI (-1)]
   end.
+
+(* ---------- the selector model (op 700): registered clients + history -> effects by the model and by the specification ---------- *)
+From Dznpy Require Import Sem.Selector.
+
+Definition dec_op (x : sexp) : op :=
+  match x with
+  | SL [SI 0; c; g] => OClaim (dec_str c) (dec_bool g)
+  | SL [SI 1; c] => ORelease (dec_str c)
+  | SL [SI 2; c; ev] => OOther (dec_str c) (dec_str ev)
+  | SL [SI 3; ev] => OOut (dec_str ev)
+  | _ => OOut []
+  end.
+Definition enc_effect (e : effect) : sexp :=
+  match e with
+  | EForwarded c ev => SL [SI 0; enc_str c; enc_str ev]
+  | EDelivered ev t => SL [SI 1; enc_str ev; enc_opt enc_str t]
+  end.
+
+Definition run_selector (t : Z) (a : list sexp) : sexp :=
+  match t, a with
+  | 700, [cl; SL ops] =>
+      let s0 := {| clients := dec_strs cl; selected := None; final := true |} in
+      let h := map dec_op ops in
+      SL [enc_list enc_effect (snd (run s0 h)); enc_list enc_effect (spec_run None h); enc_bool (conformant (dec_strs cl) None h)]
+  | _, _ => SL [SI (-1)]
+  end.
